@@ -155,3 +155,298 @@ Fixpoint hmism_from (n : N) (cs : list hcase) : list N :=
   | c :: cs' => if hagree c then hmism_from (N.succ n) cs' else n :: hmism_from (N.succ n) cs'
   end.
 Definition hasher_mismatches (cs : list hcase) : list N := hmism_from 0%N cs.
+
+(** * concurrent fetches of ONE CID (block_fetch.go: fetch, hasher.write; boxo bitswap client: publication)
+
+    Any number of Fetch calls for the same CID [k], each with its own Block (own roots), interleaved at the granularity at
+    which they touch shared state: the registry entry of the CID, the sessions of the exchange, the hasher.
+
+    [atomic_reg = true]  registration is ONE step, unmarshalFns.LoadOrStore (the code).
+    [atomic_reg = false] registration is Load (at [SEnter]) followed later by Store (at [SReg]) — the "before" witness of
+                         seeded change C10-c.
+    [trust = true]       a fetch that registered the CID itself takes a delivered block as verified by the hasher without
+                         looking (the code before fix-c10-3).
+    [trust = false]      it verifies the block itself unless the hasher has run successfully on ITS entry
+                         (unmarshalEntry.verified / ensureVerified, fix-c10-3).
+
+    The exchange: a body is decoded (= hashed = [hasher_write]) when its message arrives, and published later to the
+    sessions that want the CID at publication time ([SCheck] / [SPublish]; [SDeliver] = both at once); every fetch
+    re-publishes the block it received (exchg.NotifyNewBlocks, [SNotify]); a session receives a CID once. *)
+Section Conc.
+  Context {root cont cbytes : Type}.
+  Variable cdecode : bty -> cbytes -> option cont.
+  Variable verify : root -> bty -> id -> cont -> bool.
+  Variable atomic_reg : bool.
+  Variable trust : bool.
+  Variable k : list Z.
+
+  Notation cbody := (option (list Z * cbytes)).
+
+  Inductive fpc :=
+  | FInit                                   (* Fetch not yet at the registration of the CID *)
+  | FEntered (hit : bool)                   (* two-step registration only: Load done, [hit] = an entry was there *)
+  | FReg (dup : bool)                       (* registered ([dup = false]) or marked as duplicate; GetBlocks not yet called *)
+  | FSub (dup : bool) (inbox : option cbody)  (* the session wants the CID / holds the block in its channel *)
+  | FGot (dup : bool) (b : cbody)           (* block taken from the channel *)
+  | FNotified (dup : bool) (b : cbody)      (* exchg.NotifyNewBlocks done *)
+  | FRet (ok : bool).                       (* Fetch returned nil / an error *)
+
+  (** [f_done] = unmarshalEntry.verified of the entry this fetch created *)
+  Record fetcher := mkf { f_blk : entry root cont; f_done : bool; f_pc : fpc }.
+
+  (** [c_owner]: whose entry the registry holds for the CID; [c_pend]: decoded, not yet published bodies *)
+  Record cstate := mkc { c_fs : nat -> fetcher; c_owner : option nat; c_pend : list cbody }.
+
+  Inductive cstep :=
+  | SEnter (f : nat) | SReg (f : nat) | SSub (f : nat) | SCancel (f : nat)
+  | SCheck (b : cbody) | SPublish (i : nat) | SDeliver (b : cbody)
+  | SRecv (f : nat) | SNotify (f : nat) | SFinish (f : nat).
+
+  Definition upd (fs : nat -> fetcher) (i : nat) (x : fetcher) : nat -> fetcher :=
+    fun j => if Nat.eqb j i then x else fs j.
+  Definition set_pc (x : fetcher) (p : fpc) : fetcher := mkf (f_blk x) (f_done x) p.
+
+  (** the exchange hands [b] to every session that wants the CID now *)
+  Definition offer (b : cbody) (x : fetcher) : fetcher :=
+    match f_pc x with FSub d None => set_pc x (FSub d (Some b)) | _ => x end.
+  Definition publish (b : cbody) (fs : nat -> fetcher) : nat -> fetcher := fun j => offer b (fs j).
+
+  (** hasher.write against the registry, which holds at most the entry of this CID *)
+  Definition check (st : cstate) (b : cbody) : cstate * bool :=
+    match c_owner st with
+    | None => (st, false)
+    | Some o =>
+      let x := c_fs st o in
+      match hasher_write cdecode verify false [(k, f_blk x)] b with
+      | (r', WOk _) =>
+        match lookup k r' with
+        | Some e' => (mkc (upd (c_fs st) o (mkf e' true (f_pc x))) (c_owner st) (c_pend st), true)
+        | None => (st, false)
+        end
+      | (_, WErr) => (st, false)
+      end
+    end.
+
+  (** return of Fetch; a fetch that registered the CID itself runs the deferred unmarshalFns.Delete(cid) — whatever entry
+      is there *)
+  Definition ret (st : cstate) (f : nat) (x : fetcher) (dup ok : bool) : cstate :=
+    mkc (upd (c_fs st) f (set_pc x (FRet ok))) (if dup then c_owner st else None) (c_pend st).
+
+  Fixpoint remove_nth {A} (i : nat) (l : list A) : list A :=
+    match l, i with
+    | [], _ => []
+    | _ :: l', O => l'
+    | x :: l', S i' => x :: remove_nth i' l'
+    end.
+
+  Definition is_some {A} (o : option A) : bool := match o with Some _ => true | None => false end.
+
+  Definition cstep_fn (st : cstate) (s : cstep) : cstate :=
+    match s with
+    | SEnter f =>
+      let x := c_fs st f in
+      match f_pc x with
+      | FInit => mkc (upd (c_fs st) f (set_pc x (FEntered (negb atomic_reg && is_some (c_owner st))))) (c_owner st) (c_pend st)
+      | _ => st
+      end
+    | SReg f =>
+      let x := c_fs st f in
+      match f_pc x with
+      | FEntered hit =>
+        if (if atomic_reg then is_some (c_owner st) else hit)
+        then mkc (upd (c_fs st) f (set_pc x (FReg true))) (c_owner st) (c_pend st)
+        else mkc (upd (c_fs st) f (set_pc x (FReg false))) (Some f) (c_pend st)
+      | _ => st
+      end
+    | SSub f =>
+      let x := c_fs st f in
+      match f_pc x with
+      | FReg d => mkc (upd (c_fs st) f (set_pc x (FSub d None))) (c_owner st) (c_pend st)
+      | _ => st
+      end
+    | SCancel f =>
+      let x := c_fs st f in
+      match f_pc x with
+      | FReg d | FSub d _ => ret st f x d false
+      | _ => st
+      end
+    | SCheck b =>
+      let '(st', ok) := check st b in
+      if ok then mkc (c_fs st') (c_owner st') (c_pend st' ++ [b]) else st'
+    | SPublish i =>
+      match nth_error (c_pend st) i with
+      | Some b => mkc (publish b (c_fs st)) (c_owner st) (remove_nth i (c_pend st))
+      | None => st
+      end
+    | SDeliver b =>
+      let '(st', ok) := check st b in
+      if ok then mkc (publish b (c_fs st')) (c_owner st') (c_pend st') else st'
+    | SRecv f =>
+      let x := c_fs st f in
+      match f_pc x with
+      | FSub d (Some b) => mkc (upd (c_fs st) f (set_pc x (FGot d b))) (c_owner st) (c_pend st)
+      | _ => st
+      end
+    | SNotify f =>
+      let x := c_fs st f in
+      match f_pc x with
+      | FGot d b => mkc (publish b (upd (c_fs st) f (set_pc x (FNotified d b)))) (c_owner st) (c_pend st)
+      | _ => st
+      end
+    | SFinish f =>
+      let x := c_fs st f in
+      match f_pc x with
+      | FNotified d b =>
+        if (negb d && (trust || f_done x))%bool then ret st f x false true          (* "the block was populated by the hasher" *)
+        else match dup_unmarshal cdecode verify false (f_blk x) b with             (* duplicate path / ensureVerified *)
+             | Some e' => ret st f (mkf e' (negb d || f_done x) (f_pc x)) d true
+             | None => ret st f x d false
+             end
+      | _ => st
+      end
+    end.
+
+  Definition crun (st : cstate) (tr : list cstep) : cstate := fold_left cstep_fn tr st.
+
+  Definition cinit (blk0 : nat -> entry root cont) : cstate := mkc (fun i => mkf (blk0 i) false FInit) None [].
+
+  (** what "verified" means for a fetch: its Block holds a container that verifies for its identifier against ITS roots *)
+  Definition holds_verified (x : fetcher) : Prop :=
+    exists c, e_cont (f_blk x) = Some c /\ verify (e_root (f_blk x)) (e_ty (f_blk x)) (e_id (f_blk x)) c = true.
+
+  (** a Fetch that returned nil holds verified data *)
+  Definition fetch_safe (st : cstate) : Prop := forall i, f_pc (c_fs st i) = FRet true -> holds_verified (c_fs st i).
+
+  (** the fetch registered the CID itself and has not returned *)
+  Definition orig_inflight (p : fpc) : bool :=
+    match p with
+    | FReg false | FSub false _ | FGot false _ | FNotified false _ => true
+    | _ => false
+    end.
+
+  Definition returned (p : fpc) : bool := match p with FRet _ => true | _ => false end.
+
+  (** "concurrent": no fetch registers after some fetch has returned *)
+  Fixpoint overlapping (st : cstate) (tr : list cstep) : Prop :=
+    match tr with
+    | [] => True
+    | s :: tr' =>
+      (match s with SReg _ => forall j, returned (f_pc (c_fs st j)) = false | _ => True end) /\
+      overlapping (cstep_fn st s) tr'
+    end.
+End Conc.
+
+Arguments mkf {root cont cbytes}. Arguments mkc {root cont cbytes}.
+Arguments FInit {cbytes}. Arguments FRet {cbytes}. Arguments FReg {cbytes}. Arguments FEntered {cbytes}.
+Arguments SEnter {cbytes}. Arguments SReg {cbytes}. Arguments SSub {cbytes}. Arguments SCancel {cbytes}.
+Arguments SPublish {cbytes}. Arguments SRecv {cbytes}. Arguments SNotify {cbytes}. Arguments SFinish {cbytes}.
+
+(** ** correspondence cases for the concurrent model (the repaired code: atomic registration, no blind trust).
+    Roots: false = the square, true = the other square of the same height.  A container is abstracted to the pair
+    (verifies against the square's roots, verifies against the other square's roots). *)
+Definition cv_decode (_ : bty) (x : option (bool * bool)) : option (bool * bool) := x.
+Definition cv_verify (r : bool) (_ : bty) (_ : id) (c : bool * bool) : bool := if r then snd c else fst c.
+
+Record ccase := mkccase {
+  cc_ty : bty; cc_id : id; cc_cid : list Z;
+  cc_roots : list bool;                       (* one per fetch *)
+  cc_bodies : list (option (bool * bool));    (* body kinds: None = the container does not decode *)
+  cc_steps : list Z;                          (* op + 16 * argument *)
+  cc_obs : list Z;                            (* after each step: bit i = Block i populated; +64 = the hasher accepted;
+                                                 +128 + 256 * (o + 1) = the registry holds the entry created by fetch o *)
+  cc_final : list Z                           (* per fetch: 0 = not returned, 1 = nil, 2 = error *)
+}.
+
+Definition cc_body (c : ccase) (i : Z) : option (list Z * option (bool * bool)) :=
+  Some (cc_cid c, nth (Z.to_nat i) (cc_bodies c) None).
+
+Definition cc_step (c : ccase) (code : Z) : cstep (cbytes := option (bool * bool)) :=
+  let a := code / 16 in
+  match code mod 16 with
+  | 0 => SEnter (Z.to_nat a) | 1 => SReg (Z.to_nat a) | 2 => SSub (Z.to_nat a) | 3 => SCancel (Z.to_nat a)
+  | 4 => SCheck (cc_body c a) | 5 => SPublish (Z.to_nat a) | 6 => SDeliver (cc_body c a)
+  | 7 => SRecv (Z.to_nat a) | 8 => SNotify (Z.to_nat a) | _ => SFinish (Z.to_nat a)
+  end.
+
+Definition cc_accepts (c : ccase) (st : cstate (root := bool) (cont := bool * bool) (cbytes := option (bool * bool))) (s : cstep) : bool :=
+  match s with
+  | SCheck b | SDeliver b => snd (check cv_decode cv_verify (cc_cid c) st b)
+  | _ => false
+  end.
+
+Fixpoint cc_mask {root cont cbytes} (fs : nat -> fetcher (root := root) (cont := cont) (cbytes := cbytes)) (n : nat) : Z :=
+  match n with
+  | O => 0
+  | S n' => cc_mask fs n' + (if is_some (e_cont (f_blk (fs n'))) then 2 ^ Z.of_nat n' else 0)
+  end.
+
+Fixpoint cc_run (c : ccase) (n : nat) st (steps : list Z) : list Z * cstate (root := bool) (cont := bool * bool) (cbytes := option (bool * bool)) :=
+  match steps with
+  | [] => ([], st)
+  | code :: steps' =>
+    let s := cc_step c code in
+    let acc := cc_accepts c st s in
+    let st' := cstep_fn cv_decode cv_verify true false (cc_cid c) st s in
+    let '(os, stf) := cc_run c n st' steps' in
+    ((cc_mask (c_fs st') n + (if acc then 64 else 0) +
+      match c_owner st' with Some o => 128 + 256 * (Z.of_nat o + 1) | None => 0 end) :: os, stf)
+  end.
+
+Definition cc_agree (c : ccase) : bool :=
+  let n := length (cc_roots c) in
+  let st0 := cinit (fun i => mkentry (cc_ty c) (cc_id c) (nth i (cc_roots c) false) None) in
+  let '(os, stf) := cc_run c n st0 (cc_steps c) in
+  list_eqb os (cc_obs c) &&
+  list_eqb (map (fun i => match f_pc (c_fs stf i) with FRet true => 1 | FRet false => 2 | _ => 0 end) (seq 0 n)) (cc_final c).
+
+Fixpoint cmism_from (n : N) (cs : list ccase) : list N :=
+  match cs with
+  | [] => []
+  | c :: cs' => if cc_agree c then cmism_from (N.succ n) cs' else n :: cmism_from (N.succ n) cs'
+  end.
+Definition conc_mismatches (cs : list ccase) : list N := cmism_from 0%N cs.
+
+(** * serving a row from any representation (row_block.go: RowBlock.Populate = AxisHalf.ToRow; shwap.Row.Shares/Verify)
+
+    An accessor may hand out either half of a row as long as it says which one (eds.Accessor.AxisHalf, "side is
+    determined by implementation"): the in-memory square and ODS files the data half, ODS+Q4 files the PARITY half for the
+    rows of the lower half of the EDS.  [keep_flag = false] is seeded change C10-d (NewRow(half.Shares, Left)). *)
+Section ServeRow.
+  Context {share : Type}.
+  Variable parity : list share -> list share.    (* codec.Encode: the parity half of a data half *)
+  Variable recover : list share -> list share.   (* codec.Decode given the parity half only: the data half *)
+
+  Inductive rside := RLeft | RRight.
+
+  (** AxisHalf.ToRow on (IsParity, Shares) *)
+  Definition to_row (keep_flag : bool) (h : bool * list share) : rside * list share :=
+    (if keep_flag && fst h then RRight else RLeft, snd h).
+
+  (** Row.Shares: the full row reconstructed from the half and its side *)
+  Definition row_shares (r : rside * list share) : list share :=
+    match fst r with RLeft => snd r ++ parity (snd r) | RRight => recover (snd r) ++ snd r end.
+
+  (** Row.Verify against the committed row: the NMT root of the reconstructed row equals the committed root, which by
+      injectivity of the root (Base/Sym) is equality of the rows *)
+  Definition row_verifies (committed : list share) (r : rside * list share) : Prop := row_shares r = committed.
+
+  (** what an accessor over the square with data half [data] may return for the row *)
+  Definition half_of (data : list share) (h : bool * list share) : Prop := h = (false, data) \/ h = (true, parity data).
+End ServeRow.
+
+(** ** correspondence: which half each representation hands out for row [row] of a square of ODS width [k], and how the
+    served container is labelled *)
+Inductive srep := RepMem | RepOdsQ4 | RepOds | RepCachedFile | RepRecent.
+Definition rep_parity (r : srep) (k row : Z) : bool :=
+  match r with RepOdsQ4 | RepCachedFile => k <=? row | _ => false end.
+Record scase := mkscase { s_rep : srep; s_k : Z; s_row : Z; s_parity : bool; s_right : bool; s_accepted : bool }.
+Definition sagree (c : scase) : bool :=
+  Bool.eqb (s_parity c) (rep_parity (s_rep c) (s_k c) (s_row c)) &&
+  match fst (to_row (share := unit) true (s_parity c, [])) with RRight => s_right c | RLeft => negb (s_right c) end &&
+  s_accepted c.
+Fixpoint smism_from (n : N) (cs : list scase) : list N :=
+  match cs with
+  | [] => []
+  | c :: cs' => if sagree c then smism_from (N.succ n) cs' else n :: smism_from (N.succ n) cs'
+  end.
+Definition serve_mismatches (cs : list scase) : list N := smism_from 0%N cs.
